@@ -285,3 +285,20 @@ Fixpoint c18_bounded_aux (c : config) (pre t : list event) : bool :=
      end) && c18_bounded_aux c (pre ++ [e]) t'
   end.
 Definition c18_bounded (c : config) (t : list event) : bool := c18_bounded_aux c [] t.
+
+(* ---------------------------------------------------------------- C04 (reports clause) *)
+
+(* shutdown triggers other than a runnable's failure *)
+Definition is_nonfail_trigger (e : event) : bool :=
+  match e with
+  | ECall _ OpShutdown | ECall _ (OpSignal SigInt) | ECall _ (OpSignal SigTerm)
+  | EParentCancel | ETrigS _ => true
+  | _ => false
+  end.
+
+(* Run() returns nil only after a trigger that is not a failure: so when a runnable fails and no
+   other trigger occurs, the result is not nil - by chk_result it is then a runnable's real error
+   (or the start-up timeout when that deadline can fire) *)
+Definition chk_reports (pre : list event) (e : event) : bool :=
+  match e with ERunReturn ResNil => existsb is_nonfail_trigger pre | _ => true end.
+Definition c04_reports (c : config) (t : list event) : bool := all_check chk_reports t.
